@@ -204,8 +204,13 @@ func restoreSingletons() {
 	language.TRUE.Value, language.FALSE.Value, language.UNDEFINED.IsUndefined = true, false, true
 }
 
-func runC14(c c14Case, pokes *int) *failure {
+func runC14(c c14Case, pokes *int) (fl *failure) {
 	defer restoreSingletons()
+	defer func() {
+		if r := recover(); r != nil {
+			fl = newFail("runtime panic", "C14 %s %s: %v", c.Client, c.Scenario, r)
+		}
+	}()
 	p := &picker{mask: c.Mask}
 	defer func() {
 		if pokes != nil {
